@@ -12,6 +12,7 @@ import BevySyncModel.Slice.Panic
 import BevySyncModel.Slice.Skin
 import BevySyncModel.Slice.Fix
 import BevySyncModel.Slice.Filter
+import BevySyncModel.Slice.Ent
 /-! `bsmodel`: runs the executable model definitions on the cases the Rust harness prints, one line
 in, one line out (`ok <id>` / `MISMATCH <id> <what>`).  Lines starting with `#` are ignored.
 Only model files are imported (no proofs, no Mathlib), so this links as a native executable.
@@ -346,9 +347,16 @@ structure CompInst where
   steps : Nat := 0
   failed : Option String := none
 
+structure EntInst where
+  id : String
+  st : Ent.State
+  steps : Nat := 0
+  failed : Option String := none
+
 structure DState where
   eps : Array HttpEp := #[]
   comp : Option CompInst := none
+  ent : Option EntInst := none
 
 def parseV (s : String) : Option (List Nat) :=
   if s == "-" then none else if s == "e" then some [] else some ((s.splitOn ".").map String.toNat!)
@@ -375,7 +383,48 @@ def compAct (toks : List String) : Option (Comp.Act (List Nat)) :=
 def compPeerObs (p : Comp.Peer (List Nat)) : String :=
   s!"val={showV p.val} token={if p.token then 1 else 0} queue={p.queue.length}"
 
+def entAct (toks : List String) : Option Ent.Act :=
+  match toks with
+  | ["markH"] => some .markH | ["createdH"] => some .createdH | ["despawnH"] => some .despawnH | ["removedH"] => some .removedH
+  | ["pollH", i, n] => some (.pollH i.toNat! n.toNat!)
+  | ["markC", i] => some (.markC i.toNat!) | ["createdC", i] => some (.createdC i.toNat!)
+  | ["despawnC", i] => some (.despawnC i.toNat!) | ["removedC", i] => some (.removedC i.toNat!)
+  | ["pollC", i, n] => some (.pollC i.toNat! n.toNat!)
+  | ["leave", i] => some (.leave i.toNat!)
+  | _ => none
+
+def handleEnt (st : DState) (ei : EntInst) (toks : List String) : DState × Option String :=
+  match toks with
+  | "a" :: rest =>
+    match entAct rest with
+    | some a => ({ st with ent := some { ei with st := Ent.step ei.st a, steps := ei.steps + 1 } }, none)
+    | none => ({ st with ent := some { ei with failed := ei.failed.orElse (fun _ => some s!"bad action {rest}") } }, none)
+  | "x" :: rest =>
+    if ei.failed.isSome then (st, none) else
+    let (who, p, exp) : String × Option Ent.Peer × List String := match rest with
+      | "H" :: e => ("H", some ei.st.host, e)
+      | "C" :: i :: e => (s!"C{i}", (Ent.findClient i.toNat! ei.st.clients).map (·.p), e)
+      | _ => ("?", none, [])
+    match p, exp with
+    | some p, [cnt, tr] =>
+      let m := s!"count={p.count} tracked={if p.tracked then 1 else 0}"
+      let o := s!"count={cnt} tracked={tr}"
+      if m == o then (st, none)
+      else ({ st with ent := some { ei with failed := some s!"after {ei.steps} actions peer {who}: model {m} vs implementation {o}" } }, none)
+    | _, _ => ({ st with ent := some { ei with failed := some "bad expectation" } }, none)
+  | ["send"] =>
+    ({ st with ent := none }, some (match ei.failed with
+      | none => s!"ok {ei.id}"
+      | some f => s!"MISMATCH slice ent: {f} {ei.id}"))
+  | _ => (st, some "MISMATCH parse slice ent")
+
 def handleSlice (st : DState) (toks : List String) : DState × Option String :=
+  match st.ent, toks with
+  | some ei, t => handleEnt st ei t
+  | none, "sbegin" :: "ent" :: inst :: n :: _ =>
+    let clients := (List.range n.toNat!).map (fun k => ({ id := k + 1 } : Ent.Client))
+    ({ st with ent := some { id := inst, st := { clients := clients } } }, none)
+  | none, toks =>
   match toks with
   | "sbegin" :: "comp" :: inst :: n :: legacy :: patch :: vH :: vs =>
     let clients := (List.range n.toNat!).map (fun k =>
